@@ -504,7 +504,7 @@ Definition bg_spec (a : bytes) : option bytes :=
 (* a background helper that touches the file tree races with the lines that follow *)
 Definition helper_writes (args : list bytes) : bool :=
   match args with
-  | sub :: _ => bytes_eqb sub ((* "write" *) [x77; x72; x69; x74; x65]) || bytes_eqb sub ((* "writeraw" *) [x77; x72; x69; x74; x65; x72; x61; x77])
+  | sub :: _ => is_write_sub sub
   | [] => false
   end.
 
